@@ -23,7 +23,7 @@ Not decided: offset arithmetic of update_line_dict over histories.
 """
 import ast
 
-from ..source import norm, short, qualname, enclosing_class
+from ..source import class_methods, norm, short, qualname, enclosing_class
 from ..flow import own_nodes, must_follow
 from .. import mutate as mu
 
@@ -37,6 +37,8 @@ WRITE_METHODS = ('write', 'truncate')
 
 
 def check(ctx, rep):
+    from . import c15, _share
+    _share.share(ctx, rep, c15, ('ascii.',), 'MERGE / ASCII LOAD read the whole file: an empty line is not the end of the file')
     w = ctx.wiring
     prog = ctx.cls(PROGRAM + ':Program')
     # ---- ownership ---------------------------------------------------------
@@ -139,6 +141,33 @@ def check(ctx, rep):
     rep.ob('sentinel.never-deleted', 'DELETE defaults its upper bound to 65535', 'toline if toline is not None else 65535' in dflt, repr(dflt), ctx.where(dl))
     ap = [norm(n.value) for n in own_nodes(fp) if isinstance(n, ast.Assign) and norm(n.targets[0]) == 'afterpos']
     rep.ob('order.insertion-point', 'insertion point = position of the lowest line strictly above the range', ap == ['self.line_numbers[min(beyond)]'], repr(ap), ctx.where(fp))
+    sp_ = [n.value for n in own_nodes(fp) if isinstance(n, ast.Assign) and norm(n.targets[0]) == 'startpos']
+    rep.ob('order.range-start', 'start of a line range = position of the lowest line in the range (the dictionary is in entry order, not line order)',
+           any(norm(v) == 'self.line_numbers[min(deleteable)]' for v in sp_) and all(norm(v) in ('self.line_numbers[min(deleteable)]', 'afterpos') for v in sp_),
+           repr([norm(v) for v in sp_]), ctx.where(fp))
+    # collections derived from the line dictionary without sorting are in *entry* order: nothing may pick an
+    # element of one by position
+    n_unordered = 0
+    for fn in list(class_methods(ctx.cls(PROGRAM + ':Program')).values()):
+        unordered = set()
+        for a in own_nodes(fn):
+            if isinstance(a, ast.Assign) and isinstance(a.targets[0], ast.Name):
+                v = a.value
+                src = None
+                if isinstance(v, (ast.ListComp, ast.GeneratorExp)) and v.generators:
+                    src = norm(v.generators[0].iter)
+                elif isinstance(v, ast.Call) and norm(v.func) in ('list', 'tuple') and v.args:
+                    src = norm(v.args[0])
+                if src in ('self.line_numbers', 'self.line_numbers.keys()', 'iterkeys(self.line_numbers)'):
+                    unordered.add(a.targets[0].id)
+        n_unordered += len(unordered)
+        for x in own_nodes(fn):
+            if isinstance(x, ast.Subscript) and isinstance(x.value, ast.Name) and x.value.id in unordered and not isinstance(x.slice, ast.Slice) \
+                    and isinstance(x.slice, (ast.Constant, ast.UnaryOp)):
+                rep.ob('order.no-positional-pick', '%s: %s' % (fn.name, short(x, 40)), False,
+                       '`%s` is in the order the lines were typed: its first element need not be the lowest line number' % x.value.id, ctx.where(x))
+    rep.ob('order.no-positional-pick', 'no element of an unsorted line-number collection is picked by position (%d such collections)' % n_unordered, True)
+    rep.floor('order.no-positional-pick', n_unordered, 2, 'unsorted collections of line numbers')
     # ---- ordering --------------------------------------------------------------
     ll = ctx.fn(PROGRAM + ':Program.list_lines')
     srt = [norm(n.value) for n in own_nodes(ll) if isinstance(n, ast.Assign) and norm(n.targets[0]) == 'listable']
@@ -210,6 +239,8 @@ def variants(ctx):
            expect='update'),
         Va('poke-no-rebuild', 'break', PROGRAM,
            in_fn('set_memory', lambda fn: mu.remove_stmt(fn, mu.text_is('self.rebuild_line_dict()'))), expect='pairing.poke'),
+        Va('range-start-first-typed', 'break', PROGRAM,
+           in_fn('find_pos_line_dict', lambda fn: mu.replace_expr(fn, mu.text_is('self.line_numbers[min(deleteable)]'), 'self.line_numbers[deleteable[0]]')), expect='order.'),
         Va('insertion-point-max', 'break', PROGRAM,
            in_fn('find_pos_line_dict', lambda fn: mu.replace_expr(fn, mu.text_is('self.line_numbers[min(beyond)]'), 'self.line_numbers[max(beyond)]')), expect='order.insertion'),
         Va('link-from-old-end', 'break', PROGRAM,
